@@ -6,9 +6,9 @@ Import ListNotations.
 Lemma stripped_sym : forall a b, stripped_eqb a b = stripped_eqb b a.
 Proof.
   intros a b. destruct (stripped_eqb a b) eqn:E1; destruct (stripped_eqb b a) eqn:E2; try reflexivity.
-  - apply stripped_eqb_iff in E1. destruct E1 as [? [? ?]].
+  - apply stripped_eqb_iff in E1. destruct E1 as [? [? [? ?]]].
     assert (stripped_eqb b a = true) by (apply stripped_eqb_iff; auto). congruence.
-  - apply stripped_eqb_iff in E2. destruct E2 as [? [? ?]].
+  - apply stripped_eqb_iff in E2. destruct E2 as [? [? [? ?]]].
     assert (stripped_eqb a b = true) by (apply stripped_eqb_iff; auto). congruence.
 Qed.
 
@@ -41,6 +41,9 @@ Lemma jr_tup_all : forall k c l l', Forall2 jr l l' -> jr (TTup k c l) (TTup k c
 Proof. intros k c. apply (cong_all (TTup k c)). intros; apply jr_in_tup; assumption. Qed.
 Lemma jr_call_all : forall k c l l', Forall2 jr l l' -> jr (TCall k c l) (TCall k c l').
 Proof. intros k c. apply (cong_all (TCall k c)). intros; apply jr_in_call; assumption. Qed.
+
+Lemma jr_var_all : forall n sc hb l l', Forall2 jr l l' -> jr (TVar n sc hb l) (TVar n sc hb l').
+Proof. intros n sc hb. apply (cong_all (TVar n sc hb)). intros; apply jr_in_var; assumption. Qed.
 
 Lemma Forall2_map_fn : forall (f : ty -> ty) l, (forall x, In x l -> jr x (f x)) -> Forall2 jr l (map f l).
 Proof.
@@ -128,6 +131,7 @@ Section VisitJR.
   Hypothesis I_gen : forall k c ps, I (TGen k c ps) -> Forall I ps.
   Hypothesis I_tup : forall k c ps, I (TTup k c ps) -> Forall I ps.
   Hypothesis I_call : forall k c ps, I (TCall k c ps) -> Forall I ps.
+  Hypothesis I_var : forall n sc hb ps, I (TVar n sc hb ps) -> Forall I ps.
   Hypothesis I_visit : forall t, I t -> I (visit fU fG fN fB t).
   Hypothesis fU_jr : forall l, Forall I l -> jr (TUnion l) (fU l).
   Hypothesis fG_jr : forall k c ps, jr (TGen k c ps) (fG (fB k) c ps).
@@ -150,6 +154,7 @@ Section VisitJR.
     - eapply jr_trans; [apply jr_gen_all; apply (Ch ps H0 (I_gen _ _ _ It))|]. apply fG_jr.
     - eapply jr_trans; [apply jr_tup_all; apply (Ch ps H0 (I_tup _ _ _ It))|]. apply fT_jr.
     - eapply jr_trans; [apply jr_call_all; apply (Ch ps H0 (I_call _ _ _ It))|]. apply fC_jr.
+    - apply jr_var_all. apply (Ch ps H0 (I_var _ _ _ _ It)).
   Qed.
 End VisitJR.
 
@@ -271,6 +276,7 @@ Proof.
   - eapply wf_gen_inv; eassumption.
   - eapply wf_tup_inv; eassumption.
   - eapply wf_call_inv; eassumption.
+  - eapply wf_var_inv; eassumption.
   - apply simplify_superclasses_wf; assumption.
   - apply (suws_union_jr k); assumption.
 Qed.
@@ -326,6 +332,7 @@ Proof.
   - apply wider_gen. apply pw_middle. assumption.
   - apply wider_tup; [apply pw_middle; assumption | rewrite !app_length; reflexivity].
   - apply wider_call; [apply pw_middle; assumption | rewrite !app_length; reflexivity].
+  - apply wider_var; [apply pw_middle; assumption | rewrite !app_length; reflexivity].
   - intros v A. apply admits_union in A. destruct A as [t [Hin A]]. apply Member_sound in A.
     destruct A as [x [Mx Ax]]. destruct (proj1 (H0 x) (ex_intro _ t (conj Hin Mx))) as [t' [Hin' Mx']].
     apply admits_union. exists t'. split; [assumption|]. apply Member_sound. exists x; auto.
@@ -360,6 +367,8 @@ Proof.
   - intros v A. exact A.
   - intros v A. exact A.
   - intros v A. exact A.
+  - intros v _. destruct cps as [|x r]; [congruence|]. apply admits_union. exists x.
+    split; [left; reflexivity|]. apply unbounded_admits. inversion H2; assumption.
 Qed.
 
 (* ---------------------------------------------------------------- (2) CombineContainers *)
@@ -609,6 +618,8 @@ Proof.
     apply jr_tup_all. apply (rec_params_jr k (cc f) IH _ _ (wf_tup_inv _ _ _ _ W) Em).
   - destruct (map_opt (cc f) ps) as [ps'|] eqn:Em; [|discriminate]. simpl in E. inversion E; subst.
     apply jr_call_all. apply (rec_params_jr k (cc f) IH _ _ (wf_call_inv _ _ _ _ W) Em).
+  - destruct (map_opt (cc f) ps) as [ps'|] eqn:Em; [|discriminate]. simpl in E. inversion E; subst.
+    apply jr_var_all. apply (rec_params_jr k (cc f) IH _ _ (wf_var_inv _ _ _ _ _ W) Em).
 Qed.
 
 Lemma combine_containers_jr : forall k t, wf k t -> jr t (combine_containers t).
@@ -648,6 +659,9 @@ Proof.
   - change (kind_eqb k k0 && Nat.eqb c c0 && tys_py_eqb ps ps0 = true) in E.
     rewrite !andb_true_iff, kind_eqb_eq, Nat.eqb_eq in E. destruct E as [[-> ->] E].
     apply jr_call_all. apply (tys_py_eqb_jr ps H0 _ E).
+  - change (Nat.eqb n n0 && Nat.eqb sc sc0 && Bool.eqb hb hb0 && tys_py_eqb ps ps0 = true) in E.
+    rewrite !andb_true_iff, !Nat.eqb_eq, Bool.eqb_true_iff in E. destruct E as [[[-> ->] ->] E].
+    apply jr_var_all. apply (tys_py_eqb_jr ps H0 _ E).
 Qed.
 
 (* representative of a type among the `==`-deduplicated list *)
@@ -704,11 +718,11 @@ Proof.
   destruct m; simpl; auto.
 Qed.
 
-Lemma map_sig3_jr : forall (I : ty -> Prop) fp fr fe s,
+Lemma map_sig3_jr : forall (I : ty -> Prop) fp fr fe ft s,
   (forall t, I t -> jr t (fp t)) -> (forall t, I t -> jr t (fr t)) -> (forall t, I t -> jr t (fe t)) ->
-  wf_sig I s -> jsig s (map_sig3 fp fr fe s).
+  wf_sig I s -> jsig s (map_sig4 fp fr fe ft s).
 Proof.
-  intros I fp fr fe s Hp Hr He [Pp [S [SS [R E]]]]. unfold jr_sig, map_sig3; simpl. repeat split.
+  intros I fp fr fe ft s Hp Hr He [Pp [S [SS [R E]]]]. unfold jr_sig, map_sig4; simpl. repeat split.
   - apply Forall2_map_r. intros p Hin. eapply map_param_jr; [eassumption|]. rewrite Forall_forall in Pp; auto.
   - destruct (s_star s); simpl; [eapply map_param_jr; eassumption | exact Logic.I].
   - destruct (s_starstar s); simpl; [eapply map_param_jr; eassumption | exact Logic.I].
@@ -740,7 +754,8 @@ Qed.
 
 (* (4) CombineReturnsAndExceptions *)
 Definition merge2 (acc x : sig) : sig :=
-  mkSig (s_params acc) (s_star acc) (s_starstar acc) (TUnion [s_ret acc; s_ret x]) (s_exc acc ++ s_exc x).
+  mkSig (s_params acc) (s_star acc) (s_starstar acc) (TUnion [s_ret acc; s_ret x]) (s_exc acc ++ s_exc x)
+        (s_template acc).
 Definition not_same (s x : sig) : bool := negb (stripped_eqb s x).
 
 Lemma sig_merge_all : forall s l acc pre mid, same_parameters s acc ->
@@ -749,7 +764,7 @@ Lemma sig_merge_all : forall s l acc pre mid, same_parameters s acc ->
 Proof.
   intros s. induction l as [|x r IH]; intros acc pre mid SP; simpl; [apply jsigs_refl|].
   unfold not_same at 1. destruct (stripped_eqb s x) eqn:E; simpl.
-  - apply stripped_eqb_iff in E. destruct SP as [P1 [P2 P3]]. destruct E as [E1 [E2 E3]].
+  - apply stripped_eqb_iff in E. destruct SP as [P1 [P2 [P3 P4]]]. destruct E as [E1 [E2 [E3 E4]]].
     eapply js_trans; [apply (js_merged H mx cls pre acc mid x r); unfold same_parameters; repeat split; congruence|].
     apply (IH (merge2 acc x)). unfold same_parameters, merge2; simpl. auto.
   - replace (mid ++ x :: r) with ((mid ++ [x]) ++ r) by (rewrite <- app_assoc; reflexivity).
@@ -803,7 +818,7 @@ Definition effS (seen : list sig) (l : list sig) : list sig :=
 Lemma stripped_trans_false : forall s s0 x, stripped_eqb s x = true -> stripped_eqb s0 s = false -> stripped_eqb s0 x = false.
 Proof.
   intros s s0 x E N. destruct (stripped_eqb s0 x) eqn:E2; [|reflexivity].
-  apply stripped_eqb_iff in E. apply stripped_eqb_iff in E2. destruct E as [? [? ?]]. destruct E2 as [? [? ?]].
+  apply stripped_eqb_iff in E. apply stripped_eqb_iff in E2. destruct E as [? [? [? ?]]]. destruct E2 as [? [? [? ?]]].
   assert (stripped_eqb s0 s = true) by (apply stripped_eqb_iff; repeat split; congruence). congruence.
 Qed.
 
@@ -888,14 +903,14 @@ Proof.
     |apply (jp_self_unparameterised H mx (Some c) c (TCall k c0 ps))]; auto.
 Qed.
 
-Lemma unit_map_jr : forall (I : ty -> Prop) Hd mx gc gm gcc gf u,
+Lemma unit_map_jr : forall (I : ty -> Prop) Hd mx gc gm gcc gf ft u,
   (forall c, wf_const I c -> jr_const (hier_of u ++ Hd) mx c (gc c)) ->
   (forall n f, wf_func I f -> jr_func (hier_of u ++ Hd) mx (Some n) f (gm n f)) ->
   (forall c, wf_const I c -> jr_const (hier_of u ++ Hd) mx c (gcc c)) ->
   (forall f, wf_func I f -> jr_func (hier_of u ++ Hd) mx None f (gf f)) ->
-  Forall I (types_of_unit u) -> jr_unit Hd mx u (unit_map gc gm gcc gf u).
+  Forall I (types_of_unit u) -> jr_unit Hd mx u (unit_map_t gc gm gcc gf ft u).
 Proof.
-  intros I Hd mx gc gm gcc gf u Hc Hm Hcc Hf W. apply wf_unit_iff in W. destruct W as [W1 [W2 W3]].
+  intros I Hd mx gc gm gcc gf ft u Hc Hm Hcc Hf W. apply wf_unit_iff in W. destruct W as [W1 [W2 W3]].
   rewrite Forall_forall in W1, W2, W3. unfold jr_unit; simpl. repeat split.
   - apply Forall2_map_r. intros; apply Hc; auto.
   - apply Forall2_map_r. intros cl Hcl. destruct (W2 cl Hcl) as [M C]. rewrite Forall_forall in M, C.
@@ -905,12 +920,12 @@ Proof.
   - apply Forall2_map_r. intros; apply Hf; auto.
 Qed.
 
-Lemma map_unit4_jr : forall (I : ty -> Prop) Hd mx fp fr fe fc u,
+Lemma map_unit4_jr : forall (I : ty -> Prop) Hd mx fp fr fe fc ft u,
   (forall t, I t -> jr_ty (hier_of u ++ Hd) mx t (fp t)) -> (forall t, I t -> jr_ty (hier_of u ++ Hd) mx t (fr t)) ->
   (forall t, I t -> jr_ty (hier_of u ++ Hd) mx t (fe t)) -> (forall t, I t -> jr_ty (hier_of u ++ Hd) mx t (fc t)) ->
-  Forall I (types_of_unit u) -> jr_unit Hd mx u (map_unit4 fp fr fe fc u).
+  Forall I (types_of_unit u) -> jr_unit Hd mx u (map_unit5 fp fr fe fc ft u).
 Proof.
-  intros I Hd mx fp fr fe fc u Hp Hr He Hc W. rewrite map_unit4_eq. apply (unit_map_jr I); try assumption.
+  intros I Hd mx fp fr fe fc ft u Hp Hr He Hc W. rewrite map_unit4_eq. apply (unit_map_jr I); try assumption.
   - intros c Wc. split; [reflexivity | apply Hc; assumption].
   - intros n f Wf. eapply map_func_jr; [|eassumption]. intros; eapply map_sig3_jr; eassumption.
   - intros c Wc. split; [reflexivity | apply Hc; assumption].
@@ -1015,8 +1030,8 @@ Proof.
       assert (Wn : needs_wf p = true -> wf_unit k u).
       { intros Nw. apply W. rewrite Nw in OK1. simpl in OK1. exact OK1. }
       destruct (run_pass_sound k cs o Hd p u u1 E1 R) as [_ [H1 K1]]; [|exact Wn|].
-      * intros ->. simpl in G1. pose proof (has_flag_enabled_l o FRemoveMutable fl G1 En) as D. simpl in D.
-        destruct L as [_ [_ L3]]. congruence.
+      * intros [-> | ->]; simpl in G1; pose proof (has_flag_enabled_l o FRemoveMutable fl G1 En) as D; simpl in D;
+        destruct L as [_ [_ L3]]; congruence.
       * eapply jr_unit_trans; [eapply run_pass_jr; eassumption|].
         apply (IH (wfok && keeps_wf p) u1 u'); try assumption.
         -- rewrite H1; assumption.
@@ -1101,12 +1116,12 @@ Proof.
   - exists q. split; [|apply sig_wider_refl].
     rewrite !in_app_iff in *. simpl in *. rewrite !in_app_iff in *. simpl in *. tauto.
   - rewrite in_app_iff in Hs. simpl in Hs. rewrite in_app_iff in Hs. simpl in Hs.
-    destruct H0 as [E1 [E2 E3]].
-    assert (M1 : sig_wider H s1 (mkSig (s_params s1) (s_star s1) (s_starstar s1) (TUnion [s_ret s1; s_ret s2]) (s_exc s1 ++ s_exc s2))).
+    destruct H0 as [E1 [E2 [E3 E4]]].
+    assert (M1 : sig_wider H s1 (mkSig (s_params s1) (s_star s1) (s_starstar s1) (TUnion [s_ret s1; s_ret s2]) (s_exc s1 ++ s_exc s2) (s_template s1))).
     { unfold sig_wider; simpl. repeat split; try apply oparam_wider_refl.
       - apply Forall2_refl; apply param_wider_refl.
       - intros v A. apply admits_union. exists (s_ret s1). simpl; auto. }
-    assert (M2 : sig_wider H s2 (mkSig (s_params s1) (s_star s1) (s_starstar s1) (TUnion [s_ret s1; s_ret s2]) (s_exc s1 ++ s_exc s2))).
+    assert (M2 : sig_wider H s2 (mkSig (s_params s1) (s_star s1) (s_starstar s1) (TUnion [s_ret s1; s_ret s2]) (s_exc s1 ++ s_exc s2) (s_template s1))).
     { unfold sig_wider; simpl. rewrite E1, E2, E3. repeat split; try apply oparam_wider_refl.
       - apply Forall2_refl; apply param_wider_refl.
       - intros v A. apply admits_union. exists (s_ret s2). simpl; auto. }
